@@ -64,7 +64,8 @@
 (***************************************************************************)
 EXTENDS Naturals, Sequences, FiniteSets, TLC, CopyShapes
 CONSTANTS Confs,        \* set of configuration records (see ImageCopyMC)
-          FixWaitErr    \* FALSE: wait loops as written today; TRUE: with findings/C04-1.patch
+          FixWaitErr,   \* FALSE: wait loops as written today; TRUE: with findings/C04-1.patch
+          Reduce        \* TRUE: partial-order reduction for fault-free configurations (see Allowed)
 VARIABLES conf, tasks, seen, tb, tm, tt, fbl, written, tagMoved, lateWrite,
           getc, comc, nBlobReq, nManPut, nWrites, faults, ctxC, crashed,
           refFeat, tagListed, refLock, slots, finals, ret
@@ -311,6 +312,7 @@ NewErr(cur, r) == IF cur = "none" THEN r
                   ELSE cur
 Consume(i, c) ==
   /\ tasks[i].pc \in {"wait1", "wait2"}
+  /\ Reduce => tasks[i].pc = "wait2"            \* (reduction: a nil result is as good received later)
   /\ tasks[c].par = i /\ tasks[c].pc = "done" /\ ~tasks[c].got
   /\ tasks' = [tasks EXCEPT ![c].got = TRUE, ![i].pend = @ - 1,
                             ![i].err = NewErr(@, ChildErr(c)),
@@ -601,9 +603,41 @@ Step(i) == \/ MStart(i) \/ WSeen(i) \/ MHeadT(i) \/ MHeadT2(i) \/ MHeadS(i) \/ M
            \/ BStart(i) \/ BHead(i) \/ BAcq(i) \/ BMount(i) \/ BMDel(i) \/ BGet(i) \/ BPost(i) \/ BPost2(i)
            \/ BPut(i) \/ BPatch(i) \/ BPut2(i) \/ BDel(i) \/ Retry(i)
            \/ \E c \in Ids : Consume(i, c)
+\* Partial-order reduction by hand, for fault-free configurations (no fault budget, no Cancel,
+\* unbounded throttle; ImageCopyMC asserts this).  There no request fails and no context is ever
+\* cancelled, so a step is local (independent of every step of every other task, never disabled,
+\* and invisible to the invariants, which read the target store and at the very end the counters)
+\* when it only moves the task's own record: reads of the immutable source, opening / cancelling an
+\* upload session, the throttle, spawning (which otherwise multiplies states by the order in which
+\* task ids are handed out), leaving the non-blocking wait, receiving a child's nil result in the
+\* blocking wait, and -- for an object that only one descriptor in the whole graph names -- the
+\* seen-map registration and the HEAD on the target (nobody else reads or writes that key / that
+\* object).  With Reduce, whenever some task is at a local step only the lowest such task moves.
+\* What remains interleaved are the writes and the waits on shared objects: one representative per
+\* commit order.  The small shapes are explored without it as well.
+Incoming(n) == LET RECURSIVE CntIn(_, _)
+                   CntIn(sq, j) == IF j > Len(sq) THEN 0 ELSE (IF sq[j][1] = n THEN 1 ELSE 0) + CntIn(sq, j + 1)
+                   RECURSIVE Sum(_)
+                   Sum(S) == IF S = {} THEN 0 ELSE LET m == CHOOSE m \in S : TRUE IN CntIn(KidsSeq(m), 1) + Sum(S \ {m})
+               IN Sum(Mans) + Cardinality({r \in Sh.refs : r[1] = n}) + Cardinality({d \in Sh.dtags : d[3] = n})
+                  + (IF n = Root THEN 1 ELSE 0)
+Unique(n) == Incoming(n) = 1
+LocalPcs == {"headS", "headS2", "spawn", "dtags2", "bacq", "bmdel", "bget", "bpost", "bpost2", "bpatch"}
+IsLocal(j) ==
+  LET t == tasks[j] IN
+  \/ t.pc \in LocalPcs
+  \/ t.pc = "getS" /\ t.node \in Mans
+  \/ t.pc \in {"start", "bstart", "bhead", "headT", "headT2"} /\ t.tag = "" /\ t.via \in {"kid", "ref"} /\ Unique(t.node)
+  \/ t.pc = "wait1" /\ t.err = "none"
+  \/ t.pc = "refs" /\ ~conf.referrers
+  \/ t.pc = "dtags" /\ ~conf.dtags
+  \/ t.pc = "wait2" /\ \E c \in Ids : tasks[c].par = j /\ tasks[c].pc = "done" /\ ~tasks[c].got
+  \/ t.pc = "wait2" /\ t.pend = 0 /\ t.err = "none" /\ (NeedPut(t) \/ (Unique(t.node) /\ t.tag = ""))
+Allowed(i) == LET A == {j \in Ids : IsLocal(j)} IN
+              IF ~Reduce \/ A = {} THEN TRUE ELSE i = CHOOSE j \in A : \A k \in A : j <= k
 Quiet == \A i \in Ids : ~ENABLED Step(i)
 Idle == (crashed \/ (ret # "" /\ Quiet)) /\ UNCHANGED vars
-Next == \/ Live /\ \E i \in Ids : Step(i)
+Next == \/ Live /\ \E i \in Ids : Allowed(i) /\ Step(i)
         \/ Live /\ Return
         \/ Live /\ Cancel
         \/ Live /\ Crash
